@@ -76,6 +76,27 @@ var explicitMap = map[string]string{
 	"/sub/deep/d.txt": "sub/deep/gone.txt",
 }
 
+// linkedNames: request paths of the tree that are links or have odd names
+// (filled by getTree; the same every time).
+var linkedNames []string
+
+func appendOnce(l []string, s string) []string {
+	for _, x := range l {
+		if x == s {
+			return l
+		}
+	}
+	return append(l, s)
+}
+
+// caseTargets: the names under which the file of a static range case is asked for.
+var caseTargets = map[string]string{
+	"": "/case.bin", "hard": "/case-hard.bin", "noext": "/case", "zzz": "/case.zzz",
+	"link": "/case-link.bin", "chain": "/case-chain.bin", "uplink": "/sub/case-up.bin",
+}
+
+var caseVias = []string{"", "hard", "noext", "zzz", "link", "chain", "uplink"}
+
 func getTree(tb testing.TB) *fileTree {
 	treeMu.Lock()
 	defer treeMu.Unlock()
@@ -115,6 +136,38 @@ func getTree(tb testing.TB) *fileTree {
 		write(filepath.Join(ft.root, filepath.FromSlash(f)), c)
 	}
 	must(os.MkdirAll(filepath.Join(ft.root, "emptydir"), 0o755))
+	// names without / with unknown extensions, longer than any sniffing window
+	for i, f := range []string{"/README", "/noext", "/data.zzz", "/sub/archive.tar.unknownext", "/LICENSE.", "/.dotfile"} {
+		c := []byte(fmt.Sprintf("file %s below the root\n%s", f, kit.Text(uint64(300+i), 700+211*i)))
+		ft.files[f] = c
+		write(filepath.Join(ft.root, filepath.FromSlash(f)), c)
+		linkedNames = appendOnce(linkedNames, f)
+	}
+	// links to regular files below the root: symbolic (same directory, another
+	// directory, absolute target, chains of two, through a linked directory)
+	// and hard; every one of them names the content of its target
+	for _, l := range [][2]string{
+		{"/link-a.txt", "a.txt"}, {"/sub/link-up.txt", "../a.txt"}, {"/link-deep.bin", "sub/deep/c.bin"}, {"/sub/deep/link-side.txt", "d.txt"},
+		{"/link-abs.txt", filepath.Join(ft.root, "sub", "b.txt")}, {"/chain-2.txt", "sub/b.txt"}, {"/chain-1.txt", "chain-2.txt"},
+		{"/sub/chain-x", "../chain-1.txt"}, {"/link-noext", "README"}, {"/link.zzz", "index.html"}, {"/linkdir", "sub"},
+	} {
+		must(os.Symlink(l[1], filepath.Join(ft.root, filepath.FromSlash(l[0]))))
+	}
+	for _, l := range [][2]string{{"/hard-a.txt", "/a.txt"}, {"/sub/hard-c", "/sub/deep/c.bin"}} {
+		must(os.Link(filepath.Join(ft.root, filepath.FromSlash(l[1])), filepath.Join(ft.root, filepath.FromSlash(l[0]))))
+	}
+	for _, f := range []string{"/link-a.txt", "/sub/link-up.txt", "/link-deep.bin", "/sub/deep/link-side.txt", "/link-abs.txt", "/chain-2.txt", "/chain-1.txt", "/sub/chain-x", "/link-noext", "/link.zzz", "/linkdir/b.txt", "/linkdir/deep/c.bin", "/linkdir/link-up.txt", "/hard-a.txt", "/sub/hard-c"} {
+		linkedNames = appendOnce(linkedNames, f)
+	}
+	// the file of the range cases under other names: hard links (no extension,
+	// unknown extension) and symbolic links (direct, chain of two, from below)
+	write(filepath.Join(ft.root, "case.bin"), nil)
+	for _, n := range []string{"case-hard.bin", "case", "case.zzz"} {
+		must(os.Link(filepath.Join(ft.root, "case.bin"), filepath.Join(ft.root, n)))
+	}
+	must(os.Symlink("case.bin", filepath.Join(ft.root, "case-link.bin")))
+	must(os.Symlink("case-link.bin", filepath.Join(ft.root, "case-chain.bin")))
+	must(os.Symlink("../case.bin", filepath.Join(ft.root, "sub", "case-up.bin")))
 	tree = ft
 	tb.Cleanup(func() {
 		treeMu.Lock()
@@ -335,9 +388,16 @@ func outOfDescriptors(err error) bool {
 // runStaticModifier answers a request for /case.bin (holding content) with
 // static.Modifier the way the proxy does when the round trip is skipped.
 func runStaticModifier(ft *fileTree, content []byte, h string, viaJSON bool, upstream ...string) (obs, error) {
-	up := ""
+	up, via := "", ""
 	if len(upstream) > 0 {
 		up = upstream[0]
+	}
+	if len(upstream) > 1 {
+		via = upstream[1]
+	}
+	target, ok := caseTargets[via]
+	if !ok {
+		target = "/case.bin"
 	}
 	if staticRuns++; staticRuns%256 == 0 {
 		runtime.GC()
@@ -346,7 +406,7 @@ func runStaticModifier(ft *fileTree, content []byte, h string, viaJSON bool, ups
 	for attempt := 0; ; attempt++ {
 		err := os.WriteFile(filepath.Join(ft.root, "case.bin"), content, 0o644)
 		if err == nil {
-			req := newRequest("http://example.com/case.bin", h)
+			req := newRequest("http://example.com"+target, h)
 			res := proxyutil.NewResponse(200, nil, req)
 			switch {
 			case up == "origin" || up == "nop":
@@ -455,6 +515,11 @@ type RangeCase struct {
 	Upstream string `json:"upstream,omitempty"`
 	// Boundary (body, constructor-built): SetBoundary is called with it.
 	Boundary *string `json:"boundary,omitempty"`
+	// Via (static): the name under which the file is asked for: "" /case.bin;
+	// "hard", "noext", "zzz": hard links to it (another name, no extension, an
+	// unknown extension); "link", "chain", "uplink": symbolic links (direct, a
+	// chain of two, from a directory below).
+	Via string `json:"via,omitempty"`
 }
 
 func (c RangeCase) opts() bodyOpts {
@@ -481,11 +546,15 @@ func runRange(c RangeCase) kit.Verdict {
 		if staticAllocatesFromHeader(ft) && allocBand(c.Range, c.Len) {
 			return judge(whoLabel("body", c.ViaJSON), content, c.Range, runBodyModifier(content, c.Range, bodyOpts{ViaJSON: c.ViaJSON}))
 		}
-		o, err := runStaticModifier(ft, content, c.Range, c.ViaJSON, c.Upstream)
+		o, err := runStaticModifier(ft, content, c.Range, c.ViaJSON, c.Upstream, c.Via)
 		if err != nil {
 			return kit.Failf("C20/harness/cannot-write-case-file", "%v", err)
 		}
-		return judge(whoLabel("static", c.ViaJSON), content, c.Range, o)
+		who := whoLabel("static", c.ViaJSON)
+		if c.Via == "link" || c.Via == "chain" || c.Via == "uplink" {
+			who += "-through-symlink"
+		}
+		return judge(who, content, c.Range, o)
 	}
 	return nil
 }
@@ -502,6 +571,12 @@ func classesRange(c RangeCase) []string {
 	}
 	if c.Upstream != "" {
 		cl = append(cl, "upstream-"+c.Upstream)
+	}
+	if c.Who == "static" && c.Via != "" {
+		cl = append(cl, "asked-via-"+c.Via)
+		if c.Via == "link" || c.Via == "chain" || c.Via == "uplink" {
+			cl = append(cl, "through-symlink")
+		}
 	}
 	if c.Who == "body" && c.Boundary != nil && !c.ViaJSON {
 		cl = append(cl, "set-boundary-"+map[string]string{"": "plain", "quoted": "needing-quotes", "invalid": "rejected-by-writer"}[boundaryKind(*c.Boundary)])
@@ -544,7 +619,7 @@ func classesRange(c RangeCase) []string {
 	return cl
 }
 
-var rangeRule = "content of 0..64 KiB x Range header drawn from the RFC 7233 grammar (1..4 specs a-b / a- / -n, positions from {0,1,len-2,len-1,len,len+1,2^31,2^50,2^63-1,2^63,2^64,10^30} and uniform, reversed pairs, blanks inside members, 0..2 SP/HTAB around every comma for all three spec kinds in every list position, other letter case, other units, empty and garbage elements, stray commas, character-level mutations), answered by body.Modifier (content slice with or without spare capacity) or static.Modifier, built by their Go constructors or by parse.FromJSON from the documented JSON configuration, and judged against an independent range resolver; non-trivial = an end >= len, a suffix or open-ended spec, >= 2 specs, or a malformed spec"
+var rangeRule = "content of 0..64 KiB x Range header drawn from the RFC 7233 grammar (1..4 specs a-b / a- / -n, positions from {0,1,len-2,len-1,len,len+1,2^31,2^50,2^63-1,2^63,2^64,10^30} and uniform, reversed pairs, blanks inside members, 0..2 SP/HTAB around every comma for all three spec kinds in every list position, other letter case, other units, empty and garbage elements, stray commas, character-level mutations), answered by body.Modifier (content slice with or without spare capacity) or static.Modifier (the file asked for by its own name, through hard links without / with an unknown extension, through symbolic links: direct, chain of two, from a directory below), built by their Go constructors or by parse.FromJSON from the documented JSON configuration, and judged against an independent range resolver; non-trivial = an end >= len, a suffix or open-ended spec, >= 2 specs, or a malformed spec"
 
 // ---- generator
 
@@ -740,7 +815,7 @@ var propRange = &kit.Prop[RangeCase]{
 	Run: runRange, Classes: classesRange,
 	NonTrivial: func(c RangeCase) bool { return c.Range != "" && nonTrivialRange(c.Range, int64(c.Len)) },
 	Gates: map[string]float64{
-		"nontrivial": 0.5, "who-body": 0.3, "body-slice-with-spare-capacity": 0.08, "built-from-json-config": 0.1, "list-whitespace-strict": 0.06, "who-static": 0.25, "expect-multipart": 0.1, "expect-single-range": 0.15,
+		"nontrivial": 0.5, "who-body": 0.3, "body-slice-with-spare-capacity": 0.08, "built-from-json-config": 0.1, "list-whitespace-strict": 0.06, "through-symlink": 0.05, "who-static": 0.25, "expect-multipart": 0.1, "expect-single-range": 0.15,
 		"clamped": 0.08, "shape-suffix": 0.05, "expect-invalid": 0.08, "shape-inside": 0.05, "expect-unsatisfiable": 0.03,
 	},
 	Gen: func(t *rapid.T) RangeCase {
@@ -756,6 +831,9 @@ var propRange = &kit.Prop[RangeCase]{
 			c.Slack = rapid.SampledFrom([]int{1, 2, 7, 64, 1000}).Draw(t, "slack")
 		} else if rapid.IntRange(0, 2).Draw(t, "via_json") == 2 {
 			c.ViaJSON = true
+		}
+		if c.Who == "static" && rapid.IntRange(0, 9).Draw(t, "via_name") >= 5 {
+			c.Via = rapid.SampledFrom(caseVias[1:]).Draw(t, "via")
 		}
 		if c.Who == "static" {
 			c.Upstream = rapid.SampledFrom([]string{"", "", "", "", "origin", "nop", "origin", "", "", ""}).Draw(t, "upstream")
@@ -893,6 +971,16 @@ func enumRangeMatrix(yield func(RangeCase) bool) {
 				}
 				for _, set := range []string{"2-5", "0-1,4-", "-3", "2-5, 7-"} {
 					headers = append(headers, string(u)+"="+set)
+				}
+			}
+			// the file asked for under its other names (hard and symbolic links, odd extensions)
+			for _, h := range []string{"", "bytes=2-5", "bytes=0-", "bytes=-3", "bytes=0-1,4-", "bytes=8-20", "bytes=9-", "bytes=10-", "bytes=0-1,20-"} {
+				for _, via := range caseVias[1:] {
+					for _, vj := range []bool{false, true} {
+						if !yield(RangeCase{Who: "static", Len: n, Seed: 10, Range: h, Via: via, ViaJSON: vj}) {
+							return
+						}
+					}
 				}
 			}
 			// static.Modifier in response scope (the origin's answer is replaced), and
@@ -1060,6 +1148,8 @@ func designated(ft *fileTree, root, urlPath, rawTarget string, explicit map[stri
 		shape = "through-regular-file"
 	case err == nil && fi.IsDir():
 		shape = "directory"
+	case err == nil && isSymlink(full):
+		shape = "symlink"
 	case mapped && dotted:
 		shape = "explicit-mapping-with-dot-segments"
 	case mapped:
@@ -1085,6 +1175,11 @@ func designated(ft *fileTree, root, urlPath, rawTarget string, explicit map[stri
 		return nil, shape
 	}
 	return b, shape
+}
+
+func isSymlink(p string) bool {
+	fi, err := os.Lstat(p)
+	return err == nil && fi.Mode()&os.ModeSymlink != 0
 }
 
 func hasDotSegment(p string) bool {
@@ -1332,7 +1427,7 @@ func genTarget(t *rapid.T) string {
 		sb.WriteString(rapid.SampledFrom([]string{"sentinel.txt", "sentinel.txt", "secret" + "/" + "sentinel.txt", "secret%252fsentinel.txt", "root-evil/file.txt", "root-evil%252ffile.txt", "a.txt", "up1/sentinel.txt", "root/a.txt"}).Draw(t, "outside"))
 		p = sb.String()
 	case k < 3: // an existing file, spelled deviously
-		all := append(append([]string{}, rootFiles...), "/alias", "/deep/alias.bin", "/missing", "/emptydir", "/sub", "/a.txt/x", "/sub/b.txt/../../a.txt")
+		all := append(append(append([]string{}, rootFiles...), linkedNames...), "/alias", "/deep/alias.bin", "/missing", "/emptydir", "/sub", "/a.txt/x", "/sub/b.txt/../../a.txt")
 		p = obfuscate(t, rapid.SampledFrom(all).Draw(t, "file"))
 	case k < 9: // hostile segments
 		n := rapid.IntRange(0, 8).Draw(t, "segs")
@@ -1363,7 +1458,7 @@ func genTarget(t *rapid.T) string {
 	return p
 }
 
-var pathRule = "request lines parsed by http.ReadRequest as the proxy does: paths built from dot segments, doubled slashes, %2e/%2f/%5c, the same encoded twice and three times (%252e%252e, %252f, %25252e, mixed with single encodings, climbing 1..5 levels towards sentinel files placed 1, 2 and 3 levels above the root), backslashes, NUL, long names and names of files outside the root, devious spellings of existing files, origin- and absolute-form, with and without the explicit path mapping, the root handed to the modifier as a clean absolute path or spelled with a trailing slash / dot segments / doubled slash / relative to the working directory, or as the empty string, '.', './', '../<dir>' (the working directory is the root: its files, the sentinels and system files are asked for by absolute name), through the constructor and through the JSON configuration (rootPath absent when empty); paths put into URL.Path directly (no leading slash: '../sentinel.txt', 'sub/../../sentinel.txt') and explicit mappings whose values carry dot segments; answered by static.Modifier over a root with sentinel files outside it; judged against path.Clean('/'+path) below the root; non-trivial = the target contains '..' or an encoded dot/separator"
+var pathRule = "request lines parsed by http.ReadRequest as the proxy does: paths built from dot segments, doubled slashes, %2e/%2f/%5c, the same encoded twice and three times (%252e%252e, %252f, %25252e, mixed with single encodings, climbing 1..5 levels towards sentinel files placed 1, 2 and 3 levels above the root), backslashes, NUL, long names and names of files outside the root, devious spellings of existing files (regular files, names without or with unknown extensions longer than 512 bytes, hard links, symbolic links to files below the root: same directory, other directory, absolute target, chains of two, through a linked directory), origin- and absolute-form, with and without the explicit path mapping, the root handed to the modifier as a clean absolute path or spelled with a trailing slash / dot segments / doubled slash / relative to the working directory, or as the empty string, '.', './', '../<dir>' (the working directory is the root: its files, the sentinels and system files are asked for by absolute name), through the constructor and through the JSON configuration (rootPath absent when empty); paths put into URL.Path directly (no leading slash: '../sentinel.txt', 'sub/../../sentinel.txt') and explicit mappings whose values carry dot segments; answered by static.Modifier over a root with sentinel files outside it; judged against path.Clean('/'+path) below the root; non-trivial = the target contains '..' or an encoded dot/separator"
 
 var propPath = &kit.Prop[PathCase]{
 	ID: "C20", Name: "static-path", Rule: "rapid: " + pathRule,
